@@ -56,6 +56,7 @@ structure PState where
   px : List Proxy := []
   own : Nat → Option (Nat × Role) := fun _ => none   -- task ↦ (proxy, what it is to the proxy)
   lost : List Nat := []       -- ghost: handles dropped from a cleanup list without being closed
+  wasOwned : Nat → Bool := fun _ => false   -- ghost: the task was started by a proxy's errgroup
 
 def pinit : PState := {}
 
@@ -113,7 +114,8 @@ def refill (s : PState) (p : Nat) (c : Call) : Nat → PState × Call
     | some k =>
       if ((tasksOf s p .call).filter fun t => !isDone s.f.a t).length < c.limit then
         refill { s with f := (fstep s.f (.base (.spawn k))).1,
-                        own := upd s.own s.f.a.tasks.length (some (p, .call)) }
+                        own := upd s.own s.f.a.tasks.length (some (p, .call)),
+                        wasOwned := upd s.wasOwned s.f.a.tasks.length true }
           p { c with started := c.started + 1 } fuel
       else (s, c)
     | none => (s, c)
